@@ -550,6 +550,11 @@ func (r *Runner) replayObligation(o *Obligation, prop, replayDir string) *Replay
 	_ = os.WriteFile(smt, []byte(o.query("", true)), 0o644)
 	info["smt_file"] = smt
 	defer func() {
+		if e := recover(); e != nil {
+			// a failure to build a replay must never hide the violation itself
+			res.Reproduced = false
+			res.Detail = fmt.Sprintf("no replay could be generated for this obligation (%v); the solver output is attached", e)
+		}
 		info["reproduced"] = res.Reproduced
 		info["detail"] = res.Detail
 		data, _ := json.MarshalIndent(info, "", " ")
@@ -648,6 +653,13 @@ func (r *Runner) findTemplate(o *Obligation) string {
 	p := filepath.Join(r.verif, "replay_templates", sanitize(o.Base)+"_test.go")
 	if _, err := os.Stat(p); err == nil {
 		return p
+	}
+	// one template for all clauses of a lemma (or function): the part of the obligation name before '#'
+	if k := strings.Index(o.Base, "#"); k > 0 && strings.Contains(o.Base, "lemma:") {
+		p = filepath.Join(r.verif, "replay_templates", sanitize(o.Base[:k])+"_test.go")
+		if _, err := os.Stat(p); err == nil {
+			return p
+		}
 	}
 	return ""
 }
